@@ -14,7 +14,13 @@ boltons.strutils functions and compared with independent oracles:
 * args2cmd / escape_shell_args(style='cmd'): a reference implementation (below) of the Microsoft C runtime argv
   parser (stdargv.c parse_cmdline), in the pre-2008 and the post-2008 variant (they differ in the treatment of `""`
   inside a quoted part); both must return exactly the input list.
-* format_int_list / parse_int_list / complement_int_list: set arithmetic and a reference formatter / strict parser.
+* format_int_list / parse_int_list / complement_int_list: set arithmetic and a reference formatter / strict parser
+  (ranges are compared as runs, never expanded).  Exhaustive over small lists; besides, a stated ladder of magnitudes
+  (every power of two 2**7..2**66 and power of ten 10**2..10**21 -1/+0/+1, the float-precision and machine-word limits
+  published by sys, values up to 10**400) with every neighbourhood shape around each centre, under a CPU-time guard;
+  delimiter variants include one that passes the optional arguments by position with regex-special delimiters.
+* sh / cmd: besides the exhaustive short strings, directed large cases (hundreds of arguments, arguments of 2**k+1
+  characters, long runs of quotes and backslashes).
 * gzip_bytes / gunzip_bytes: identity of the round trip; gzip.decompress as independent decoder.  Besides the exhaustive
   short strings a directed (non-exhaustive) ladder of bulk sizes: powers of two -1/+0/+1 up to 4 MiB (thorough: 64 MiB)
   and the integer constants found in boltons.strutils / gzip / io with neighbours and multiples, at every level.
@@ -78,7 +84,9 @@ SWEEP = [chr(c) for c in list(range(1, 0x100)) + SWEEP_EXTRA]
 
 INT_MENU = (0, 1, 2, 3, 7, 8, 9, 10, 11, 99, 100)
 INT_VARIANTS = (('default', {}), ('delim_space', {'delim_space': True}),
-                ('custom-delims', {'delim': ';', 'range_delim': ':'}))
+                ('custom-delims', {'delim': ';', 'range_delim': ':'}),
+                ('special-delims-positional', {'delim': '|', 'range_delim': '.', 'delim_space': True}))
+POSITIONAL = ('special-delims-positional',)      # variants whose optional arguments are passed by position
 OMIT = 'omit'
 
 BATCH = 3000                 # cases per shell process
@@ -552,8 +560,37 @@ def extra_cases(fam, maxlen, pair_len):
     for c in SWEEP:
         for args in ([c], ['a' + c], [c + 'a'], ['a' + c + 'a'], [c, c], [q + c], [c + '\\'], ['\\' + c + q]):
             put(args)
+    for args in scale_cases(fam):
+        put(args)
     _EXTRA[key] = out
     return out
+
+
+SCALE_LIST_LENGTHS = (257, 1025)
+SCALE_ARG_LENGTHS = (257, 4097, 65537)
+SCALE_RUN_LENGTHS = (257, 4097)
+
+
+def scale_cases(fam):
+    """Directed (not exhaustive) large cases: many arguments, long arguments, long runs of the quote character and of
+    backslashes - sizes one above powers of two that a chunked or buffered encoder might use."""
+    alpha = SH_ALPHA if fam == 'sh' else CMD_ALPHA
+    tokens = SH_TOKENS if fam == 'sh' else CMD_TOKENS
+    q = "'" if fam == 'sh' else '"'
+    out = [list(tokens)]                                                  # every token, one list
+    for n in SCALE_LIST_LENGTHS:
+        out.append([alpha[i % len(alpha)] * (i % 3) for i in range(n)])   # every third argument is empty
+    unit = ''.join(alpha)
+    for n in SCALE_ARG_LENGTHS:
+        out.append([(unit * (n // len(unit) + 1))[:n]])
+    for n in SCALE_RUN_LENGTHS:
+        out += [[q * n], ['\\' * n + q], ['a ' + '\\' * n], ['\\' * n, q]]
+    return out
+
+
+def small_sample(sample):
+    """Samples are written into the evidence file: leave the bulky cases out."""
+    return sample if sum(len(a) + 1 for a in sample['args']) <= 400 else None
 
 
 def list_shards(fam, pair_len, maxlen):
@@ -731,7 +768,7 @@ def sh_shard_fn(root, shells):
         box = get_box(root)
         items, meta = [], []           # items for the shells; meta[i] = (args, [functions producing that text])
         for args in gen_cases(spec):
-            t.count(nontrivial=sh_nontrivial(args), sample={'family': 'sh', 'args': args})
+            t.count(nontrivial=sh_nontrivial(args), sample=small_sample({'family': 'sh', 'args': args}))
             seen = {}
             for fn in SH_FUNCS:
                 text, viols = sh_static(fn, args)
@@ -791,7 +828,7 @@ def cmd_eval(fn, args):
 def cmd_shard(spec):
     t = inputs.Tally()
     for args in gen_cases(spec):
-        t.count(nontrivial=cmd_nontrivial(args), sample={'family': 'cmd', 'args': args})
+        t.count(nontrivial=cmd_nontrivial(args), sample=small_sample({'family': 'cmd', 'args': args}))
         for fn in CMD_FUNCS:
             t.add('comparisons(crt pre-2008 + post-2008)', 2)
             for sig, exp, obs in cmd_eval(fn, args):
@@ -841,11 +878,21 @@ def ref_parse(text, delim=',', range_delim='-'):
     return toks
 
 
-def toks_values(toks):
-    out = []
-    for lo, hi, _ in toks:
-        out.extend(range(lo, hi + 1))
-    return out
+def toks_runs(toks):
+    """Maximal runs [[lo, hi], ...] of the set of integers that the tokens denote (no range is expanded: a token may
+    span 2**60 integers when the code under test mangles a large limit)."""
+    runs = []
+    for lo, hi in sorted((lo, hi) for lo, hi, _ in toks):
+        if runs and lo <= runs[-1][1] + 1:
+            runs[-1][1] = max(runs[-1][1], hi)
+        else:
+            runs.append([lo, hi])
+    return runs
+
+
+def toks_count(toks):
+    """Number of integers the tokens list one by one (an integer listed twice counts twice)."""
+    return sum(hi - lo + 1 for lo, hi, _ in toks)
 
 
 def int_tags(L):
@@ -873,21 +920,28 @@ def int_eval(L, vname, kw):
     pkw = {k: kw[k] for k in ('delim', 'range_delim') if k in kw}
     shape = 'C14|fn:%%s(%s)|%%s' % vname
     try:
-        text = su.format_int_list(list(L), **kw)
+        if vname in POSITIONAL:
+            text = su.format_int_list(list(L), kw['delim'], kw['range_delim'], kw['delim_space'])
+        else:
+            text = su.format_int_list(list(L), **kw)
     except Exception as e:
         return [(shape % ('format_int_list', 'returns text'), 'a str', 'raised %s: %s' % (type(e).__name__, e))]
     if not isinstance(text, str):
         return [(shape % ('format_int_list', 'returns text'), 'a str', 'returned %r' % (text,))]
     canon = ref_format(L, **kw)
     toks = ref_parse(text, **pkw)
-    denotes = None if toks is None else toks_values(toks)
+    denotes_want = toks is not None and toks_runs(toks) == ref_runs(want)       # the text denotes the set of L
     # (1) parse(format(L)) == sorted(set(L))
     try:
-        back = su.parse_int_list(text, **pkw)
+        if vname in POSITIONAL:
+            back = su.parse_int_list(text, kw['delim'], kw['range_delim'])
+        else:
+            back = su.parse_int_list(text, **pkw)
     except Exception as e:
         back = 'raised %s: %s' % (type(e).__name__, e)
     if back != want:
-        if denotes is not None and sorted(set(denotes)) == want:
+        back = _short(back)
+        if denotes_want:
             # the text denotes the right set; the reader is at fault
             v.append((shape % ('parse_int_list', 'value of format_int_list output'), want,
                       {'text': text, 'parse_int_list': back}))
@@ -898,7 +952,7 @@ def int_eval(L, vname, kw):
     if text != canon:
         if toks is None:
             what = 'well-formed range string'
-        elif sorted(set(denotes)) != want:
+        elif not denotes_want:
             what = 'denotes the set of L'
         elif any(n == 2 and lo == hi for lo, hi, n in toks):
             what = 'canonical: no a-a token'
@@ -948,7 +1002,8 @@ def window_values(L, start, end):
     return sorted(set(range(s, e)) - set(L))
 
 
-COMPL_VARIANTS = (('default', {}), ('custom-delims', {'delim': ';', 'range_delim': ':'}))
+COMPL_VARIANTS = (('default', {}), ('custom-delims', {'delim': ';', 'range_delim': ':'}),
+                  ('special-delims-positional', {'delim': '|', 'range_delim': '.'}))
 
 
 def complement_eval(L, start, end, vname='default'):
@@ -959,12 +1014,21 @@ def complement_eval(L, start, end, vname='default'):
     dk = dict(COMPL_VARIANTS)[vname]
     rs = ref_format(L, **dk)
     kw = dict(dk)
-    if start != OMIT:
-        kw['range_start'] = start
-    if end != OMIT:
-        kw['range_end'] = end
+    pos = [rs]
+    if vname in POSITIONAL:                  # as many leading arguments by position as the case spells out
+        if start != OMIT:
+            pos.append(start)
+            if end != OMIT:
+                pos += [end, kw.pop('delim'), kw.pop('range_delim')]
+        elif end != OMIT:
+            kw['range_end'] = end
+    else:
+        if start != OMIT:
+            kw['range_start'] = start
+        if end != OMIT:
+            kw['range_end'] = end
     try:
-        out = su.complement_int_list(rs, **kw)
+        out = su.complement_int_list(*pos, **kw)
     except Exception as e:
         return [('C14|fn:complement_int_list(%s)|returns text' % vname, 'a str',
                  'raised %s: %s' % (type(e).__name__, e))]
@@ -972,8 +1036,7 @@ def complement_eval(L, start, end, vname='default'):
     if toks is None:
         return [('C14|fn:complement_int_list(%s)|well-formed range string' % vname, ref_format(want, **dk),
                  {'range_string': rs, 'returned': out})]
-    got = toks_values(toks)
-    if sorted(got) != want:
+    if toks_runs(toks) != ref_runs(want) or toks_count(toks) != len(want):      # exactly those, each listed once
         return [('C14|fn:complement_int_list(%s)|missing integers of the window' % vname, ref_format(want, **dk),
                  {'range_string': rs, 'returned': out})]
     return []
@@ -1001,10 +1064,163 @@ def complement_shard(spec):
                 elif (0 if s == OMIT else s) >= e:
                     tags.append('empty-window')
                 for vname, _ in COMPL_VARIANTS:
+                    if vname in POSITIONAL and high:
+                        continue            # call spelling, not values: the lists below n - highbits suffice
                     case = {'family': 'complement', 'list': L, 'range_start': s, 'range_end': e, 'variant': vname}
                     t.count(nontrivial=bool(want) and bool(L), sample=case)
                     for sig, exp, obs in complement_eval(L, s, e, vname):
                         t.bad(sig, case, exp, obs, tags=tags)
+    return t
+
+
+# ------------------------------------------------------------------------------------------------------------------
+# integer lists: magnitudes.  The statement quantifies over all non-negative integers; the exhaustive parts above stay
+# below 101.  Thresholds at which an implementation may change behaviour (small-int cache, digit counts, machine words,
+# float precision, 64-bit arithmetic) are straddled by a ladder of centres, with every shape of neighbourhood around them.
+
+class CpuLimit(BaseException):
+    pass
+
+
+def cpu_guarded(seconds, fn, *args):
+    """fn(*args) under a budget of *CPU* seconds of this process (ITIMER_VIRTUAL: independent of the machine load).
+    A mangled large limit can turn 'lo-hi' into a range of 2**30 integers; the checker must not hang on it."""
+    import signal
+
+    def on_alarm(signum, frame):
+        raise CpuLimit()
+    old = signal.signal(signal.SIGVTALRM, on_alarm)
+    signal.setitimer(signal.ITIMER_VIRTUAL, seconds)
+    try:
+        return fn(*args)
+    finally:
+        signal.setitimer(signal.ITIMER_VIRTUAL, 0)
+        signal.signal(signal.SIGVTALRM, old)
+
+
+EVAL_CPU_LIMIT = 120
+MAG_OFFSETS = (0, 1, 2, 4)          # all non-empty subsets: single, run of 2, run of 3, gaps
+MAG_SHAPES = ('plain', 'after-small', 'reversed-dup')
+MAG_SMALL = (0, 1, 5)
+
+
+def magnitude_centres():
+    """Every power of two from 2**7 to 2**66 and every power of ten from 10**2 to 10**21, each -1/+0/+1; the limits
+    that Python itself publishes (sys.maxsize, the float mantissa width, float max, the unsigned word); and a few
+    values far beyond any machine word."""
+    import sys
+    c = set()
+    for k in range(7, 67):
+        c.update((2 ** k - 1, 2 ** k, 2 ** k + 1))
+    for k in range(2, 22):
+        c.update((10 ** k - 1, 10 ** k, 10 ** k + 1))
+    m = sys.float_info.mant_dig
+    c.update((2 ** m + 1, 2 ** m + 3, 2 ** (m + 1) + 2, 2 ** (m + 2) + 4, 3 * 2 ** m + 1))   # not representable as floats
+    c.update((sys.maxsize - 2, sys.maxsize, 2 * sys.maxsize + 1, 2 * sys.maxsize + 2))
+    c.update((10 ** 23 + 1, 2 ** 100 + 1, 2 ** 128 - 1, 10 ** 30 + 1, 10 ** 40 + 7,
+              int(sys.float_info.max) + 1, 10 ** 400 + 1))
+    return sorted(c)
+
+
+def magnitude_lists(c):
+    for r in range(1, len(MAG_OFFSETS) + 1):
+        for offs in itertools.combinations(MAG_OFFSETS, r):
+            base = [c + o for o in offs]
+            for shape in MAG_SHAPES:
+                if shape == 'plain':
+                    yield shape, base
+                elif shape == 'after-small':
+                    yield shape, list(MAG_SMALL) + base
+                else:
+                    yield shape, base[::-1] + [base[-1]] + [MAG_SMALL[-1]]
+
+
+def magnitude_tags(L):
+    import sys
+    tags = int_tags(L)
+    m = max(L)
+    if m > 2 ** sys.float_info.mant_dig:
+        tags.append('above-float-precision')
+    if m > sys.maxsize:
+        tags.append('above-machine-word')
+    return tags
+
+
+MAG_VARIANTS = tuple((v, kw) for v, kw in INT_VARIANTS if v != 'delim_space')    # the last variant has delim_space too
+
+
+def int_magnitude_shard(spec):
+    _, centres = spec
+    t = inputs.Tally()
+    for c in centres:
+        for shape, L in magnitude_lists(c):
+            tags = magnitude_tags(L)
+            t.count(nontrivial=bool(set(tags) & {'duplicates', 'run-of-2', 'run-of-3+'}),
+                    sample={'family': 'int', 'list': L})
+            now = [None]
+
+            def all_variants():
+                out = []
+                for vname, kw in MAG_VARIANTS:
+                    now[0] = vname
+                    out += [(vname,) + v for v in int_eval(L, vname, kw)]
+                return out
+            t.add('comparisons(format/parse)', len(MAG_VARIANTS))
+            try:
+                viols = cpu_guarded(EVAL_CPU_LIMIT, all_variants)
+            except (CpuLimit, MemoryError) as ex:
+                viols = [(now[0], 'C14|fn:format_int_list/parse_int_list(%s)|terminates' % now[0], 'a result',
+                          'no result: %s' % ('%d s of CPU time used up' % EVAL_CPU_LIMIT
+                                             if isinstance(ex, CpuLimit) else 'MemoryError'))]
+            for vname, sig, exp, obs in viols:
+                t.bad(sig, {'family': 'int', 'list': L, 'variant': vname}, exp, obs, tags=tags)
+    return t
+
+
+# complement_int_list materialises range(range_end): windows stay below COMPL_MAG_TOP (cost, not a limit of the statement)
+COMPL_MAG_TOP = 70000
+COMPL_MAG_BOTH = 5000               # centres below: both variants; above: default only
+COMPL_MAG_OFFSETS = (0, 1, 3)
+
+
+def complement_magnitude_centres():
+    c = set()
+    for k in range(7, 15):
+        c.update((2 ** k - 1, 2 ** k, 2 ** k + 1))
+    for k in range(2, 5):
+        c.update((10 ** k - 1, 10 ** k, 10 ** k + 1))
+    c.add(2 ** 16 + 1)
+    return sorted(x for x in c if x + 8 <= COMPL_MAG_TOP)
+
+
+def complement_magnitude_cases(c):
+    for r in range(0, len(COMPL_MAG_OFFSETS) + 1):
+        for offs in itertools.combinations(COMPL_MAG_OFFSETS, r):
+            L = [c + o for o in offs]
+            for s, e in ((c - 2, c + 6), (c, None), (c + 1, OMIT), (c - 1, c + 2)):
+                yield L, s, e
+
+
+def complement_magnitude_shard(spec):
+    _, centres = spec
+    t = inputs.Tally()
+    for c in centres:
+        variants = ('default', 'special-delims-positional') if c < COMPL_MAG_BOTH else ('default',)
+        for L, s, e in complement_magnitude_cases(c):
+            want = window_values(L, s, e)
+            if want is None:
+                t.add('skipped(no end, empty list)')
+                continue
+            for vname in variants:
+                case = {'family': 'complement', 'list': L, 'range_start': s, 'range_end': e, 'variant': vname}
+                t.count(nontrivial=bool(want) and bool(L), sample=case)
+                try:
+                    viols = cpu_guarded(EVAL_CPU_LIMIT, complement_eval, L, s, e, vname)
+                except (CpuLimit, MemoryError) as ex:
+                    viols = [('C14|fn:complement_int_list(%s)|terminates' % vname, 'a result',
+                              'no result: %s' % type(ex).__name__)]
+                for sig, exp, obs in viols:
+                    t.bad(sig, case, exp, obs, tags=['magnitude'])
     return t
 
 
@@ -1143,6 +1359,8 @@ def gzip_eval(b, level, how):
 def _short(x):
     if isinstance(x, bytes) and len(x) > 64:
         return {'len': len(x), 'head': x[:32], 'tail': x[-16:]}
+    if isinstance(x, (list, tuple)) and len(x) > 64:
+        return {'len': len(x), 'head': list(x[:16]), 'tail': list(x[-8:])}
     return x
 
 
@@ -1209,6 +1427,12 @@ def run(ctx):
     n = B['compl_n']
     inputs.run_shards(ctx, complement_shard, [('compl', n, high, hb, B['compl_wmax']) for high in range(1 << hb)],
                       part='int:complement', rule='non-empty list and non-empty expected complement')
+    centres = magnitude_centres()
+    inputs.run_shards(ctx, int_magnitude_shard, [('mag', centres[i::32]) for i in range(32)],
+                      part='int:format/parse:magnitudes', rule='same rule as int:format/parse')
+    ccentres = complement_magnitude_centres()
+    inputs.run_shards(ctx, complement_magnitude_shard, [('cmag', [c]) for c in ccentres],
+                      part='int:complement:magnitudes', rule='non-empty list and non-empty expected complement')
     inputs.run_shards(ctx, gzip_shard, [('gz', lv, B['gzip_maxlen']) for lv in [None] + list(range(1, 10))],
                       part='gzip', rule='non-empty byte string')
     all_sizes, few_sizes = bulk_sizes(ctx.tier)
@@ -1233,6 +1457,11 @@ def run(ctx):
                'pairs_over_strings_up_to_len': B['sh_pair_len'], 'triples_over_strings_up_to_len': 1,
                'tokens': len(SH_TOKENS), 'token_lists': 'every token alone and every ordered pair',
                'code_point_sweep': 'U+0001..U+00FF and %d further code points, 8 contexts each' % len(SWEEP_EXTRA),
+               'scale (directed, not exhaustive)': 'all tokens as one list; lists of %r arguments; one argument of '
+                                                   '%r characters cycling through the alphabet; runs of %r quote '
+                                                   'characters / backslashes (before a quote, after a blank, as an '
+                                                   'argument of their own); same for cmd'
+                                                   % (SCALE_LIST_LENGTHS, SCALE_ARG_LENGTHS, SCALE_RUN_LENGTHS),
                'functions': list(SH_FUNCS), 'oracles': [s.name for s in shells] + ['shlex.split']},
         'cmd': {'alphabet': CMD_ALPHA, 'single_argument_max_len': B['cmd_maxlen'],
                 'pairs_over_strings_up_to_len': B['cmd_pair_len'], 'triples_over_strings_up_to_len': 1,
@@ -1243,7 +1472,22 @@ def run(ctx):
                 'complement_subsets_of': 'range(%d)' % B['compl_n'],
                 'complement_windows': 'range_start in {omitted, 0..%d} x range_end in {omitted, None, 0..%d}'
                                       % (B['compl_wmax'], B['compl_wmax']),
-                'complement_variants': [v for v, _ in COMPL_VARIANTS]},
+                'complement_variants': [v for v, _ in COMPL_VARIANTS],
+                'complement_positional_variant': 'only for the subsets of range(%d)' % (B['compl_n'] - hb),
+                'magnitudes': {
+                    'centres': '%d values: 2**k-1/+0/+1 for k=7..66, 10**k-1/+0/+1 for k=2..21, neighbours of '
+                               '2**mant_dig, sys.maxsize, 2*sys.maxsize+1, and 10**23+1, 2**100+1, 2**128-1, 10**30+1, '
+                               '10**40+7, int(float max)+1, 10**400+1' % len(centres),
+                    'lists_per_centre': 'c+o for every non-empty subset of offsets %r, in the shapes %r (small '
+                                        'values %r)' % (MAG_OFFSETS, MAG_SHAPES, MAG_SMALL),
+                    'variants': [v for v, _ in MAG_VARIANTS],
+                    'complement_centres': ccentres,
+                    'complement_lists': 'c+o for every subset of offsets %r' % (COMPL_MAG_OFFSETS,),
+                    'complement_windows': '(c-2, c+6), (c, None), (c+1, omitted), (c-1, c+2)',
+                    'complement_variants': 'default; special-delims-positional for centres below %d' % COMPL_MAG_BOTH,
+                    'note': 'exhaustive over this stated ladder; integers between the centres are not visited; '
+                            'complement windows end below %d because complement_int_list materialises '
+                            'range(range_end)' % COMPL_MAG_TOP}},
         'gzip': {'alphabet': list(GZ_ALPHA), 'max_len': B['gzip_maxlen'], 'levels': 'default, 1..9',
                  'structured': list(STRUCTURED),
                  'bulk': {'sizes_all_levels': all_sizes, 'sizes_levels_default_1_9': few_sizes,
